@@ -144,7 +144,7 @@ prop("C10", ["PepitVerif/Props/C10.lean", "PepitVerif/Props/C09Methods.lean", "P
               stream("examples (REAL programs: the operations every shipped example performs, traced at run time over 386 parameter tuples — suite tuples and neighbouring tuples of every example; example run = replay on the library = Lean model)", "examples", 64, 386, offset=179),
               stream("methods (the example scripts whose whole user-level model is specified in Lean, Model/Methods.lean — gradient-descent contraction, subgradient method, proximal gradient, gradient flow of a strongly convex function, the potential function of gradient descent, gradient flow of a convex function, the second potential function of gradient descent, accelerated gradient flow of a convex function, one Polyak step in distance and in function values — at parameter values drawn over the documented ranges: the objects the REAL script builds = the Lean specification the C09Methods theorems are about)", "methods", 24, 400, offset=193),
               stream("collect+cvx (an equivalent formulation may lean on what an LMI enforces: the real cvxpy wrapper couples every entry, above and below the diagonal)", "collect", 80, 1500, env={"PEPV_TEE": "1", "STUBS": "1"}, offset=197)],
-     direct=[oracle("c10_examples", 40, 103), oracle("c10_refs", 57, 600), oracle("c10_sweeps", 19, 190), oracle("c10_equivalent", 14, 14), oracle("c10_neighbours", 300, 300)],
+     direct=[oracle("c10_examples", 40, 103), oracle("c10_refs", 57, 600), oracle("c10_sweeps", 19, 190), oracle("c10_equivalent", 14, 14), oracle("c10_neighbours", 495, 600)],
      trusted=["hand transcription of 19 published closed forms and their validity ranges (lean/PepitModel/Ref.lean), validated against the pinned tree",
               "frozen reference tables harness/ref_table.json and harness/ref_neighbours.json (claim tight/upper per example at the suite tuples and at neighbouring tuples: other iteration counts, scaled parameters) generated from the pinned tree"],
      assumptions=["'SDP optimum = closed form for all parameters' is a theorem of the literature per family and is not formalised: this property is decided mostly by correspondence on parameter grids"])
@@ -167,7 +167,7 @@ prop("C12", ["PepitVerif/Props/C12.lean"],
               stream("tree in one interpreter history (module-level null_point / null_expression as operands and accumulators)", "tree", 150, 3000, offset=103),
               stream("flow (the calls made to the solver, incl. the dimension-reduction stage, are the same whatever the verbosity)", "flow", 150, 2000, script="corr_c14.py", offset=157),
               stream("examples (REAL programs: the operations every shipped example performs, traced at run time over 386 parameter tuples — all examples one after the other in one interpreter, each against a fresh model; example run = replay on the library = Lean model)", "examples", 48, 386, offset=181)],
-     direct=[oracle("c12_history", 12, 150)])
+     direct=[oracle("c12_history", 12, 150), oracle("c12_types", 150, 150)])
 
 prop("C13", ["PepitVerif/Props/C13.lean", "PepitVerif/Props/C13Hist.lean"],
      streams=[stream("resolve (histories of solves, edits, evaluations of held objects)", "resolve", 200, 4000, offset=31),
